@@ -166,6 +166,9 @@ func (PowerMonitor) Post(e *Explorer, before, w *World, _ interface{}, ev *Event
 			}
 			w.SnapSeen = ns
 		case *reportertypes.MsgSelectReporter, *reportertypes.MsgSwitchReporter:
+			if len(msgs) != 1 {
+				continue // the reference state is taken before the whole tx
+			}
 			var selA, repA string
 			if s, ok := x.(*reportertypes.MsgSelectReporter); ok {
 				selA, repA = s.SelectorAddress, s.ReporterAddress
@@ -527,11 +530,11 @@ func (RewardMonitor) Post(e *Explorer, before, w *World, pre interface{}, ev *Ev
 		}
 		total.Add(total, new(big.Rat).SetInt(p.tbr.BigInt()))
 		e.RC.Count("tbr_rewards_checked", 1)
-		if rem := w.ModBal("time_based_rewards"); !rem.IsZero() {
+		if rem := w.LB.TBRAfterEnd; !rem.IsZero() {
 			fail("tbr-not-used-up", fmt.Sprintf("time-based reward pool still holds %s after paying cycle-list aggregates", rem))
 		}
 	} else if len(cycAggs) == 0 {
-		if rem := w.ModBal("time_based_rewards"); !rem.Equal(p.tbr) {
+		if rem := w.LB.TBRAfterEnd; !rem.Equal(p.tbr) {
 			fail("tbr-paid-without-cycle-aggregate", fmt.Sprintf("time-based reward pool changed %s -> %s in a block without cycle-list/deposit aggregates", p.tbr, rem))
 		}
 	}
@@ -539,7 +542,14 @@ func (RewardMonitor) Post(e *Explorer, before, w *World, pre interface{}, ev *Ev
 		return
 	}
 	now := w.SelectorTips()
-	tol := new(big.Rat).SetFrac(big.NewInt(int64(terms+2)), new(big.Int).Exp(big.NewInt(10), big.NewInt(18), nil))
+	// credits are 18-decimal numbers and the implementation forms each share as (power ratio rounded to 18 decimals) x reward:
+	// one unit in the last place of the ratio scales with the reward, so shares are compared up to (2R + terms) x 1e-18
+	tolN := new(big.Int).Add(new(big.Int).Mul(big.NewInt(2), new(big.Int).Add(total.Num(), big.NewInt(0))), big.NewInt(int64(terms+2)))
+	if !total.IsInt() {
+		tolN.Quo(tolN, total.Denom())
+	}
+	tol := new(big.Rat).SetFrac(tolN, new(big.Int).Exp(big.NewInt(10), big.NewInt(18), nil))
+	sumTol := new(big.Rat).SetFrac(big.NewInt(int64(terms+2)), new(big.Int).Exp(big.NewInt(10), big.NewInt(18), nil))
 	gotSum := new(big.Rat)
 	cls := ""
 	if negRate {
@@ -578,7 +588,7 @@ func (RewardMonitor) Post(e *Explorer, before, w *World, pre interface{}, ev *Ev
 		}
 	}
 	sd := new(big.Rat).Sub(gotSum, total)
-	if sd.Abs(sd).Cmp(tol) > 0 {
+	if sd.Abs(sd).Cmp(sumTol) > 0 {
 		fail("credits-do-not-sum-to-reward"+cls, fmt.Sprintf("credits sum to %s, rewards paid are %s", gotSum.FloatString(18), total.FloatString(18)))
 	}
 }
